@@ -360,3 +360,5 @@ for _k in ("grid_pixel_centres_2d_slim_from", "grid_pixel_indexes_2d_slim_from")
 
 # pixel coordinates are index-valued data (rows of an index array, possibly of an unsigned dtype): scalar-type twins of engine C
 CONTRACTS[G + "scaled_coordinates_2d_from"].unsigned_twin = ("pixel_coordinates_2d",)
+# ... and the same for the scalar query point of the two scalar conversions under the scalar-type twins (origins and scales may still be ints)
+CONTRACTS[G + "pixel_coordinates_2d_from"].no_int_twin_params = ("scaled_coordinates_2d",)
